@@ -531,16 +531,16 @@ class Stage:
         >>> ocp.set_der(x, p)
         >>> ocp.set_value(p, 3)
         """
-        if self.master is not None and self.master.is_transcribed:
-            def action(parameter, value):
-                self._method.set_value(self, self.master._method, parameter, value)      
-        else:
-            def action(parameter, value):
-                if parameter not in self._meta:
-                    raise Exception("You attempted to set the value of a non-parameter: " + str(parameter))
-                if not np.any([parameter in p for p in self.parameters.values()]):
-                    raise Exception("You attempted to set the value of a non-parameter. Did you mean ocp.set_initial()? Got " + str(parameter))
-                self._param_vals[parameter] = value
+        is_transcribed = self.master is not None and self.master.is_transcribed
+        def action(parameter, value):
+            if parameter not in self._meta:
+                raise Exception("You attempted to set the value of a non-parameter: " + str(parameter))
+            if not np.any([parameter in p for p in self.parameters.values()]):
+                raise Exception("You attempted to set the value of a non-parameter. Did you mean ocp.set_initial()? Got " + str(parameter))
+            if is_transcribed:
+                self._method.set_value(self, self.master._method, parameter, value)
+            # Always record the value, such that it survives a later re-transcription
+            self._param_vals[parameter] = value
         for_all_primitives(parameter, value, action, "First argument to set_value must be a parameter or a simple concatenation of parameters", rhs_type=DM)
 
 
